@@ -50,6 +50,9 @@ var catalogue = []script{
 	{"load", `local f = load("return 1 + 1") emit(f()) emit(load(string.dump(function() return 42 end))()) emit(tostring(1e15), tostring(-0.0), math.type(3 // 1))`},
 	{"errpos", `local ok, e = pcall(function() error("boom") end) emit(e) local ok2, e2 = pcall(function() local x = nil; return x.y end) emit(ok2, (e2:gsub(":.*", ""))) emit(debug.getinfo(1, "S").short_src)`},
 	{"loadcost", `local src = "local a = 1 local function f(x) return x + a end return f(2)" local c = runtime.callcontext({kill = {cpu = 1000000}}, function() return load(src)() end) emit(c.status, c.used.cpu) emit(select(2, pcall(load("error('in loaded chunk')", "=loaded"))))`},
+	{"require", `emit(pcall(require, "nosuchmodule_c20")) emit(package.searchpath("a.b", "./nosuchdir_c20/?.lua;./nosuchdir_c20/?/init.lua"))`},
+	{"pkgconfig", `package.config = "/\n:\n#\n!\n-\n" emit(package.searchpath("a.b", "./nosuchdir_c20/#.lua:./nosuchdir_c20/#/init.lua")) emit((pcall(require, "nosuchmodule_c20")))`},
+	{"pkgshort", `package.config = nil emit(package.searchpath("a.b", "./nosuchdir_c20/?.lua;./nosuchdir_c20/#.lua")) package.config = "/\n" emit(package.searchpath("a.b", "./nosuchdir_c20/?.lua;./nosuchdir_c20/#.lua"))`},
 	{"iobuf", `emit(io.type(io.stdout), type(io.output()), io.type(42)) emit(os.time{year=2020, month=1, day=1, hour=12} > 0) emit(type(os.clock()))`},
 }
 
@@ -199,7 +202,7 @@ func families(tier string) []*core.Family {
 	if tier != "thorough" {
 		var quick []script
 		for i, sc := range catalogue {
-			if i < 11 || sc.Name == "errpos" || sc.Name == "loadcost" {
+			if i < 11 || sc.Name == "errpos" || sc.Name == "loadcost" || sc.Name == "require" || sc.Name == "pkgconfig" || sc.Name == "pkgshort" {
 				quick = append(quick, sc)
 			}
 		}
